@@ -1,19 +1,50 @@
 """Presentations of a job set as PV event streams (DESIGN 7.0)."""
 
 
-def to_pv(job, jid, jobname="J", order="creation", prefix=None, t0=0):
+from datetime import datetime, timedelta
+
+_T0 = datetime(2024, 1, 1)
+
+
+def ones(k):
+    return "1" * (k + 1)
+
+
+# wave 14: identifier schemes a renaming may legitimately choose.  Event ids
+# only have to be unique within their job.
+#   ones    job ids 1, 11, 111 ... and event ids 1, 11, 111 ... (one id a
+#           prefix of the other; job id + event id of different pairs spell
+#           the same text)
+#   shared  every job uses the same event ids e0, e1, ...
+#   numeric ids whose text order differs from their numeric order
+#   case    ids that differ in letter case only
+ID_SCHEMES = {
+    "ones": (lambda ji: ones(ji), lambda ji, i: ones(i)),
+    "shared": (lambda ji: f"J{ji}", lambda ji, i: f"e{i}"),
+    "numeric": (lambda ji: str(8 + ji), lambda ji, i: str(98 + ji * 3 + i)),
+    "case": (lambda ji: "job" + format(ji, "b").replace("0", "a")
+             .replace("1", "A"),
+             lambda ji, i: "ev" + format(i, "b").replace("0", "x")
+             .replace("1", "X")),
+}
+
+
+def to_pv(job, jid, jobname="J", order="creation", prefix=None, t0=0,
+          eid=None):
     """one job -> list of PVEvent dicts.  order: creation | reversed | rotated
     or an explicit list of node ids."""
     prefix = jid if prefix is None else prefix
     evs = []
     for i, t, ps in job:
         sec = t0 + i
-        ts = "2024-01-01T%02d:%02d:%02d.000000Z" % (
-            (sec // 3600) % 24, (sec // 60) % 60, sec % 60)
+        # a real calendar: shifts carry into the day, month and year
+        ts = (_T0 + timedelta(seconds=sec)).strftime(
+            "%Y-%m-%dT%H:%M:%S.000000Z")
         evs.append(dict(jobId=jid, jobName=jobname, eventType=t,
-                        eventId=f"{prefix}-{i}", timestamp=ts,
-                        applicationName="app",
-                        previousEventIds=[f"{prefix}-{p}" for p in ps]))
+                        eventId=eid(i) if eid else f"{prefix}-{i}",
+                        timestamp=ts, applicationName="app",
+                        previousEventIds=[eid(p) if eid else f"{prefix}-{p}"
+                                          for p in ps]))
     if order == "creation":
         pass
     elif order == "reversed":
@@ -59,10 +90,16 @@ def present(jobs, spec=None):
     for pos, ji in enumerate(order):
         jid = f"job{ji}" if not ren else f"zz-{(ji * 7919) % 1000003:x}-q"
         prefix = jid if not ren else f"e{(ji * 104729) % 1000003:x}"
+        eid = None
+        if isinstance(ren, str):
+            jf, ef = ID_SCHEMES[ren]
+            jid = jf(ji)
+            eid = (lambda i, ji=ji, ef=ef: ef(ji, i))
         o = eo
         if pos == 0 and spec.get("first_job_events") is not None:
             o = spec["first_job_events"]
-        out.append(to_pv(jobs[ji], jid, order=o, prefix=prefix, t0=shift))
+        out.append(to_pv(jobs[ji], jid, order=o, prefix=prefix, t0=shift,
+                         eid=eid))
     dup = spec.get("dup")
     if dup is not None:
         out.append(to_pv(jobs[dup], f"dup{dup}", order=eo, t0=shift))
